@@ -175,6 +175,7 @@ struct Gen {
 	int react_density = 0;  // percent chance per op to carry reactions
 	int plan_density = 0;
 	int small_targets = 0;  // bias state indices into 0..3
+	bool story = false;     // plan story: tasks of the active state, the active state reporting, vetoes of the fired request
 
 	Gen(Rng& r, const SutInfo& i, const GenProfile& p) : rng(r), info(i), prof(p) {
 		N = info.n_states; C = info.capacity; plans = info.f_plans && !prof.neutral; serial = info.f_serial && !prof.neutral;
@@ -291,6 +292,21 @@ struct Gen {
 		static const int act[] = { M_ENTRY_GUARD, M_ENTRY_GUARD, M_ENTER };
 		static const int lif[] = { M_EXIT, M_ENTER, M_REENTER };
 		static const int qry[] = { M_QUERY };
+		if (story && (kind == OP_UPDATE || kind == OP_REACT) && rng.chance(3, 4)) {
+			// the active state (or one of its injections, or the root) reports in one of the phase callbacks
+			Reaction re; const bool rc = kind == OP_REACT;
+			const int ph = static_cast<int>(rng.below(3));
+			re.method = static_cast<uint8_t>(rc ? (ph == 0 ? M_PRE_REACT : ph == 1 ? M_REACT : M_POST_REACT) : (ph == 0 ? M_PRE_UPDATE : ph == 1 ? M_UPDATE : M_POST_UPDATE));
+			re.who = rng.chance(5, 6) ? W_ACTIVE : W_ROOT; re.inj = rng.chance(5, 6) ? 0 : 255; re.nth = 0;
+			SutAction a; memset(&a, 0, sizeof(a));
+			const int r = static_cast<int>(rng.below(100));
+			if (re.who == W_ROOT) { a.kind = r < 70 ? A_SUCCEED : A_FAIL; a.a = static_cast<uint8_t>(state()); if (rng.chance(2, 3)) a.mask[31] = 1; }
+			else a.kind = r < 65 ? A_SUCCEED_SELF : r < 85 ? A_FAIL_SELF : r < 93 ? A_SUCCEED : A_FAIL;
+			if (a.kind == A_SUCCEED || a.kind == A_FAIL) { if (!a.mask[31]) a.a = static_cast<uint8_t>(state()); }
+			re.acts.push_back(a);
+			if (rng.chance(1, 5)) re.acts.push_back(plan_action());
+			op.reactions.push_back(re);
+		}
 		switch (kind) {
 		case OP_UPDATE: add_reactions(op, upd, plans ? 12 : 10, false); break;
 		case OP_REACT: op.a = static_cast<int>(rng.below(3)); op.b = static_cast<int>(rng.next() & 0x7fffffff); add_reactions(op, rea, plans ? 12 : 10, false); break;
@@ -349,6 +365,8 @@ struct Gen {
 		if (P == "C04") { hostility = rng.chance(1, 3) ? 20 : 0; redirect = 100 - hostility; react_density = 100; }
 		if (P == "C03") { if (hostility + redirect < 60) { hostility = 40; redirect = 40; } react_density = 100; }
 		if (do_replica) { c.replicas = static_cast<uint8_t>(1 + rng.below(2)); do_serial = false; do_crash = false; do_replay_self = false; }
+		story = plans && root_outcomes && rng.chance((P == "C08" || P == "C09") ? 60u : 15u, 100);
+		if (story) { if (plan_density < 2) plan_density = 2; if (hostility > 30) hostility = 30; }
 
 		int len;
 		{ int r = static_cast<int>(rng.below(100)); len = r < 55 ? rng.range(1, 8) : r < 88 ? rng.range(9, 20) : rng.range(21, prof.max_ops > 21 ? prof.max_ops : 21); }
@@ -356,7 +374,7 @@ struct Gen {
 		// weighted op table for this run
 		std::vector<int> table;
 		#define W(k, w) for (int _i = 0; _i < (w); ++_i) table.push_back(k)
-		W(OP_UPDATE, 10); W(OP_REACT, 5); W(OP_QUERY, 2);
+		W(OP_UPDATE, story ? 22 : 10); W(OP_REACT, story ? 8 : 5); W(OP_QUERY, 2);
 		W(OP_CHANGE_TO, 6); W(OP_IMM_CHANGE_TO, 6);
 		if (payload) { W(OP_CHANGE_WITH, 5); W(OP_IMM_CHANGE_WITH, 5); }
 		if (plans) {
